@@ -1,7 +1,98 @@
-(* C08 - placeholder; theorems are added as proofs land *)
-From Coq Require Import ZArith List.
-From NutsV Require Import lib.Fp model.Estimator.
+(* C08 - Mass-matrix adaptation whitens Gaussians exactly and never degenerates.
+   Exact-arithmetic statements about the estimator the code implements (model/Estimator.v; note
+   that its variance accumulator is  var += diff*diff  with diff = x - mean_before, which is NOT
+   the textbook sum of squared deviations: what makes the diagonal update exact on Gaussians is
+   that the same accumulator is applied to draws and gradients and only their ratio is used), and
+   binary64 statements about the scale-update kernels for every bit pattern of their inputs. *)
+From Coq Require Import QArith List ZArith Bool.
+From NutsV Require Import lib.Fp model.Estimator proofs.Estimator_facts.
 Import ListNotations.
-Example C08_model_runs : run_estimator 4 [4607182418800017408; 4607182418800017408; 4307583784117748259; 4906019910204099648]%Z = [4607182418800017408; 4607182418800017408]%Z.
+
+Theorem C08_running_mean_exact :
+  forall xs : list Q, xs <> [] ->
+    rv_mean (rvq_run xs) == qsum xs / Qn (length xs) /\ rv_count (rvq_run xs) = length xs.
+Proof. exact running_mean_exact. Qed.
+Print Assumptions C08_running_mean_exact.
+
+(* the accumulator is a quadratic form: affine maps of the samples scale it by a^2 *)
+Theorem C08_accumulator_scaling :
+  forall (a b : Q) (xs : list Q), xs <> [] ->
+    let ys := map (fun x => a * x + b) xs in
+    rv_var (rvq_run ys) == a * a * rv_var (rvq_run xs) /\
+    rv_mean (rvq_run ys) == a * rv_mean (rvq_run xs) + b.
+Proof. exact var_scaling. Qed.
+Print Assumptions C08_accumulator_scaling.
+
+Theorem C08_accumulator_zero_iff_constant :
+  forall (x0 : Q) (xs : list Q),
+    rv_var (rvq_run (x0 :: xs)) == 0 <-> Forall (fun x => x == x0) xs.
+Proof. exact var_zero_iff. Qed.
+Print Assumptions C08_accumulator_zero_iff_constant.
+
+(* Gaussian coordinate with mean mm and variance s2: from ANY set of draws that are not all equal
+   the diagonal update recovers sigma^2 = s2 and mu = mm exactly *)
+Theorem C08_diag_gaussian_exact :
+  forall mm s2 : Q, 0 < s2 ->
+  forall sq : Q -> Q,
+    (forall z, 0 <= z -> 0 <= sq z) ->
+    (forall z y, 0 <= y -> z == y * y -> sq z * sq z == z) ->
+  forall (x0 : Q) (xs : list Q), ~ Forall (fun x => x == x0) xs ->
+    let draws := x0 :: xs in
+    let gs := map (score mm s2) draws in
+    diag_sigma2 sq (rv_var (rvq_run draws)) (rv_var (rvq_run gs)) == s2 /\
+    diag_mu (rv_mean (rvq_run draws)) (rv_mean (rvq_run gs)) s2 == mm /\
+    diag_mu (rv_mean (rvq_run draws)) (rv_mean (rvq_run gs))
+            (diag_sigma2 sq (rv_var (rvq_run draws)) (rv_var (rvq_run gs))) == mm.
+Proof. exact diag_gaussian_exact. Qed.
+Print Assumptions C08_diag_gaussian_exact.
+
+(* hence in the whitened space gradient = -position *)
+Theorem C08_whitened_gradient_is_minus_position :
+  forall mm s2 sd x : Q, 0 < sd -> sd * sd == s2 -> sd * score mm s2 x == - ((x - mm) / sd).
+Proof. exact whitening. Qed.
+Print Assumptions C08_whitened_gradient_is_minus_position.
+
+(* invalid estimates (non-finite or zero) leave the previous value in place *)
+Theorem C08_invalid_estimate_keeps_previous :
+  (forall std inv dv scale lo hi : f64,
+     f_invalid (fmul dv scale) = true -> f_var_inv_std_draw std inv dv scale None lo hi = (std, inv)) /\
+  (forall std inv dv gv lo hi : f64,
+     f_invalid (fsqrt (fdiv dv gv)) = true -> f_var_inv_std_draw_grad std inv dv gv None lo hi = (std, inv)).
+Proof. split; [exact keep_when_invalid_draw | exact keep_when_invalid_draw_grad]. Qed.
+Print Assumptions C08_invalid_estimate_keeps_previous.
+
+(* for EVERY binary64 input (finite, zero, subnormal, huge, NaN, infinite) the scales of the
+   transformation stay finite and strictly positive, with the clamp limits 1e-20 / 1e20 of the code *)
+Theorem C08_scale_update_safe :
+  forall v : f64, f_invalid v = false ->
+    let r := f_set (fclamp v f_1em20 f_1e20) in
+    (is_finite (fst r) = true /\ flt fzero (fst r) = true) /\
+    is_finite (snd r) = true /\ flt fzero (snd r) = true.
+Proof. exact scale_update_safe_1e20. Qed.
+Print Assumptions C08_scale_update_safe.
+
+Theorem C08_kernels_preserve_finite_positive_scales :
+  (forall std inv dv scale : f64, finpos std -> finpos inv ->
+     let r := f_var_inv_std_draw std inv dv scale None f_1em20 f_1e20 in finpos (fst r) /\ finpos (snd r)) /\
+  (forall std inv dv gv : f64, finpos std -> finpos inv ->
+     let r := f_var_inv_std_draw_grad std inv dv gv None f_1em20 f_1e20 in finpos (fst r) /\ finpos (snd r)) /\
+  (forall g fill : f64, good fill ->
+     let r := f_var_inv_std_grad g fill f_1em20 f_1e20 in finpos (fst r) /\ finpos (snd r)).
+Proof.
+  split; [exact draw_preserves_finpos_1e20 | split; [exact draw_grad_preserves_finpos_1e20 | exact grad_finpos_1e20]].
+Qed.
+Print Assumptions C08_kernels_preserve_finite_positive_scales.
+
+(* the magnitude condition on the clamp limits is necessary: with a subnormal limit 1/lo overflows *)
+Theorem C08_subnormal_limit_refuted :
+  let d := of_bits 1 in
+  is_finite d = true /\ flt fzero d = true /\ f_invalid d = false /\
+  is_finite (snd (f_set (fclamp d d d))) = false.
+Proof. exact scale_update_unsafe_for_subnormal_lo. Qed.
+Print Assumptions C08_subnormal_limit_refuted.
+
+Example C08_nonvacuous :
+  run_estimator 4 [4607182418800017408; 4607182418800017408; 4307583784117748259; 4906019910204099648]%Z
+  = [4607182418800017408; 4607182418800017408]%Z.
 Proof. vm_compute. reflexivity. Qed.
-Print Assumptions C08_model_runs.
+Print Assumptions C08_nonvacuous.
